@@ -43,6 +43,8 @@ def gen(pid, thorough):
             cfg, r.generated, r.distinct, r.depth, r.wall, len(sink)))
         # cap the state cover of the big configurations: evenly spaced sample, deterministic
         cap = 2000 if thorough else 300
+        if cfg == "MC_quick5.cfg":
+            cap = 2000   # a small configuration whose interest lies in particular histories: keep them all
         if len(sink) > cap:
             step = len(sink) / float(cap)
             sink = [sink[int(k * step)] for k in range(cap)]
